@@ -49,15 +49,16 @@ def gen_span_query(rng):
     return spans.SpanCondition(term(), term()) if hasattr(spans, "SpanCondition") else spans.SpanFirst(term())
 
 
-def one_query(ctx, rng, built, s, witness_base):
+def one_query(ctx, rng, built, s, witness_base, mode="c11"):
     from vf import model, monitors
     from whoosh import query
+    P = mode
     kind = rng.random()
     if kind < 0.12:
         q = gen_span_query(rng)
     else:
         q = model.gen_query(rng, depth=rng.choice([1, 2, 2, 3]), scoring=True)
-    scored = rng.random() < 0.6
+    scored = True if mode == "c12" else rng.random() < 0.6
     needs_current = rng.random() < 0.5
     level = rng.choice(["top", "segment"])
     if level == "segment":
@@ -72,12 +73,12 @@ def one_query(ctx, rng, built, s, witness_base):
     w = dict(witness_base, query=repr(q), scored=scored, needs_current=needs_current, level=level)
     # A negation has no posting value/spans of its own (InverseMatcher delegates value()/spans() to the
     # matcher it negates, which sits on some other document): those reads are not compared there.
-    ok0, m_probe = ctx.guard("c11.reference", w, make)
+    ok0, m_probe = ctx.guard(P + ".reference", w, make)
     if not ok0:
         ctx.case(("make-failed", model.qshape(q)), False)
         return
     want_values = "InverseMatcher" not in monitors.mclasses(m_probe)
-    ok, ref = ctx.guard("c11.reference", w, monitors.reference_list, make, scored, want_values)
+    ok, ref = ctx.guard(P + ".reference", w, monitors.reference_list, make, scored, want_values)
     if not ok:
         ctx.case(("ref-failed", model.qshape(q)), False)
         return
@@ -91,36 +92,40 @@ def one_query(ctx, rng, built, s, witness_base):
             exp = None
         if exp is not None:
             got = set(s.stored_fields(e.id)["id"] for e in ref)
-            ctx.count("c11.model_crosschecks")
+            ctx.count(P + ".model_crosschecks")
             if got != exp:
-                ctx.fail("c11.reference-vs-model", "stepping:%s" % type(make()).__name__, w,
+                ctx.fail(P + ".reference-vs-model", "stepping:%s" % type(make()).__name__, w,
                          "stepping yields keys %r, model %r" % (sorted(got), sorted(exp)))
                 ctx.case(("ref-wrong", model.qshape(q)), False)
                 return
     ids = [e.id for e in ref]
     if any(b <= a for a, b in zip(ids, ids[1:])):
-        ctx.fail("c11.order", "ids-not-increasing:%s" % type(make()).__name__, w, repr(ids[:20]))
+        ctx.fail(P + ".order", "ids-not-increasing:%s" % type(make()).__name__, w, repr(ids[:20]))
         return
     m0 = make()
     tree = monitors.mclass_tree(m0)
     for c in monitors.mclasses(m0):
-        ctx.count("c11.class.%s" % c)
+        ctx.count(P + ".class.%s" % c)
     # all_ids on a fresh matcher
-    ok, got = ctx.guard("c11.all_ids", w, lambda: list(make().all_ids()))
+    ok, got = ctx.guard(P + ".all_ids", w, lambda: list(make().all_ids()))
     if ok:
-        ctx.count("c11.all_ids_checks")
+        ctx.count(P + ".all_ids_checks")
         if got != ids:
-            ctx.fail("c11.all_ids", "%s" % type(m0).__name__, w, "all_ids=%r stepping=%r" % (got[:20], ids[:20]))
+            ctx.fail(P + ".all_ids", "%s" % type(m0).__name__, w, "all_ids=%r stepping=%r" % (got[:20], ids[:20]))
     for p in range(3):
         allow_q = scored
-        prog = monitors.gen_program(rng, ref, allow_q)
+        if mode == "c12":
+            prog = monitors.gen_quality_program(rng, ref)
+        else:
+            prog = monitors.gen_program(rng, ref, allow_q)
         cur = None
-        ctx.count("c11.programs")
+        ctx.count(P + ".programs")
         try:
-            cur = monitors.Cursor(ctx, make, ref, scored)
+            cur = monitors.Cursor(ctx, make, ref, scored, prefix=P)
+            cur.bounds = (mode == "c12")
             monitors.run_program(cur, prog)
         except monitors.ProtocolViolation as e:
-            ctx.fail("c11.protocol", e.mech, dict(w, program=[list(o) for o in prog], trace=cur.trace if cur else None,
+            ctx.fail(P + ".protocol", e.mech, dict(w, program=[list(o) for o in prog], trace=cur.trace if cur else None,
                                                   reference=[x.brief() for x in ref[:30]], tree=tree), e.detail)
         except Exception as e:  # noqa
             from vf.core import whoosh_site
@@ -129,7 +134,7 @@ def one_query(ctx, rng, built, s, witness_base):
             if in_harness:
                 raise
             last = cur.trace[-1].split("(")[0] if cur and cur.trace else "fresh"
-            ctx.fail("c11.protocol", "%s:exc:%s@%s:after-%s" % (cur._cls() if cur else "?", type(e).__name__, site, last),
+            ctx.fail(P + ".protocol", "%s:exc:%s@%s:after-%s" % (cur._cls() if cur else "?", type(e).__name__, site, last),
                      dict(w, program=[list(o) for o in prog], trace=cur.trace if cur else None, tree=tree),
                      "".join(traceback.format_exception(type(e), e, e.__traceback__))[-1800:])
         ctx.case((tree, tuple(o[0] for o in prog), scored, needs_current, level), len(ref) >= 2,
